@@ -60,6 +60,7 @@ CONF = {
             "adjustByCfsQuota / calculateBESuppressCPUSetPolicy / calcBECPUSet (files read back from a temp cgroup root); "
             "distinct by content hash, non-trivial = at least one checked event after the reset",
     "assumptions": [
+        "a CPU list written in a form that does not parse (rbad / sysbad) names no CPU: the event logs that list as empty; generated only without an annotation cpu amount (the budget side drops a reservation whose CPU list does not parse as a whole)",
         "cpuset annotations of distinct pods are disjoint (scheduler invariant); annotations are well-formed",
         "a pod is BE if its koordinator QoS is BE or its kubernetes QoS is BestEffort; a host application is BE only if "
         "declared BE and placed under the best-effort cgroup; CPUs reserved by id count 1000m each",
